@@ -10,11 +10,10 @@
     1f72dc6); the star-count conjunct assumes type names contain no `*` (C identifiers); the conjunct about
     the WRITTEN attribute (`GIRWriter._write_type` falls back to the plain ctype when the complete one is
     empty) assumes the spelling is not empty (a nameless base type without qualifiers or pointer levels).
-  * `C02_transfer_alias_partial`: `links.length = 1 ∨ links.head? = some true` — the returned type is a typedef
-    of the fundamental itself, or its first typedef is a pointer to a const pointee.  For a typedef of a
-    typedef the real code computes NO default (`_get_transfer_default_return` looks at the first alias' own
-    target only): witness `C02_transfer_alias_counterexample`, full statement `C02_transfer_alias_full`
-    (finding reported by harness/c02.py, PENDING_FINDINGS).
+  * `C02_transfer_alias`: the typedef chain is well formed — every typedef but the last has a typedef name as
+    its target (a giname, no fundamental), the last one a fundamental; what `lookup_typenode` finds along the
+    chain is a parameter of the model (`Target.alias links`).  No restriction on the length of the chain
+    (since /repo 11a984f a typedef of a typedef is followed).
   * `C02_callbacks`: none for the grouping; the written closure/destroy INDEX equals the position of
     the user-data / destroy parameter when no earlier parameter has the same name (C forbids duplicate
     parameter names).
@@ -55,7 +54,7 @@ theorem C02_source_shape :
     Gen.pass3ThrowsShape =
       ["if Not node.parameters", ".return ", "last_param = node.parameters[USub 1]", "if last_param.type.ctype Eq 'GError**'", ".node.parameters.pop()", ".node.throws = True"] ∧
     Gen.transferDefaultShape =
-      ["if (node.type.is_equiv(ast.TYPE_NONE) Or isinstance(node.type,ast.Varargs))", ".return ast.PARAM_TRANSFER_NONE", "else", ".if isinstance(node,ast.Parameter)", "..return self._get_transfer_default_param(parent,node)", ".else", "..if isinstance(node,ast.Return)", "...return self._get_transfer_default_return(parent,node)", "..else", "...if isinstance(node,ast.Field)", "....return ast.PARAM_TRANSFER_NONE", "...else", "....if isinstance(node,ast.Property)", ".....return ast.PARAM_TRANSFER_NONE", "....else", ".....raise AssertionError(node)", "--", "if node.direction In (ast.PARAM_DIRECTION_INOUT,ast.PARAM_DIRECTION_OUT)", ".if node.caller_allocates", "..return ast.PARAM_TRANSFER_NONE", ".return ast.PARAM_TRANSFER_FULL", "return ast.PARAM_TRANSFER_NONE", "--", "if (typeval.is_equiv(ast.BASIC_GIR_TYPES) Or typeval.is_const Or typeval.is_equiv((ast.TYPE_ANY,ast.TYPE_NONE)))", ".return ast.PARAM_TRANSFER_NONE", "else", ".if typeval.is_equiv(ast.TYPE_STRING)", "..return ast.PARAM_TRANSFER_FULL", ".else", "..if typeval.target_fundamental", "...return None", "return None", "--", "typeval = node.type", "basic = self._get_transfer_default_returntype_basic(typeval)", "if basic", ".return basic", "if Not typeval.target_giname", ".return None", "target = self._transformer.lookup_typenode(typeval)", "if isinstance(target,ast.Alias)", ".return self._get_transfer_default_returntype_basic(target.target)", "else", ".if (isinstance(target,ast.Boxed) Or (isinstance(target,(ast.Record,ast.Union)) And (target.gtype_name IsNot None Or target.foreign)))", "..return ast.PARAM_TRANSFER_FULL", ".else", "..if isinstance(target,(ast.Enum,ast.Bitfield))", "...return ast.PARAM_TRANSFER_NONE", "..else", "...if (isinstance(parent,ast.Function) And parent.is_constructor)", "....if isinstance(target,ast.Class)", ".....initially_unowned_type = ast.Type(,target_giname='GObject.InitiallyUnowned')", ".....try", "......initially_unowned = self._transformer.lookup_typenode(initially_unowned_type)", ".....except KeyError", "......message.error_node(node,'constructor found but GObject is not in includes')", "......return None", ".....if (initially_unowned And self._is_gi_subclass(typeval,initially_unowned_type))", "......return ast.PARAM_TRANSFER_NONE", ".....else", "......return ast.PARAM_TRANSFER_FULL", "....else", ".....if isinstance(target,(ast.Record,ast.Union))", "......return ast.PARAM_TRANSFER_FULL", ".....else", "......raise AssertionError('Invalid constructor')", "...else", "....if isinstance(target,(ast.Class,ast.Record,ast.Union))", ".....return None", "....else", ".....return None"] ∧
+      ["if (node.type.is_equiv(ast.TYPE_NONE) Or isinstance(node.type,ast.Varargs))", ".return ast.PARAM_TRANSFER_NONE", "else", ".if isinstance(node,ast.Parameter)", "..return self._get_transfer_default_param(parent,node)", ".else", "..if isinstance(node,ast.Return)", "...return self._get_transfer_default_return(parent,node)", "..else", "...if isinstance(node,ast.Field)", "....return ast.PARAM_TRANSFER_NONE", "...else", "....if isinstance(node,ast.Property)", ".....return ast.PARAM_TRANSFER_NONE", "....else", ".....raise AssertionError(node)", "--", "if node.direction In (ast.PARAM_DIRECTION_INOUT,ast.PARAM_DIRECTION_OUT)", ".if node.caller_allocates", "..return ast.PARAM_TRANSFER_NONE", ".return ast.PARAM_TRANSFER_FULL", "return ast.PARAM_TRANSFER_NONE", "--", "if (typeval.is_equiv(ast.BASIC_GIR_TYPES) Or typeval.is_const Or typeval.is_equiv((ast.TYPE_ANY,ast.TYPE_NONE)))", ".return ast.PARAM_TRANSFER_NONE", "else", ".if typeval.is_equiv(ast.TYPE_STRING)", "..return ast.PARAM_TRANSFER_FULL", ".else", "..if typeval.target_fundamental", "...return None", "return None", "--", "typeval = node.type", "basic = self._get_transfer_default_returntype_basic(typeval)", "if basic", ".return basic", "if Not typeval.target_giname", ".return None", "target = self._transformer.lookup_typenode(typeval)", "if isinstance(target,ast.Alias)", ".seen = set()", ".while (isinstance(target,ast.Alias) And id(target) NotIn seen)", "..seen.add(id(target))", "..basic = self._get_transfer_default_returntype_basic(target.target)", "..if (basic Or Not target.target.target_giname)", "...return basic", "..target = self._transformer.lookup_typenode(target.target)", ".return None", "else", ".if (isinstance(target,ast.Boxed) Or (isinstance(target,(ast.Record,ast.Union)) And (target.gtype_name IsNot None Or target.foreign)))", "..return ast.PARAM_TRANSFER_FULL", ".else", "..if isinstance(target,(ast.Enum,ast.Bitfield))", "...return ast.PARAM_TRANSFER_NONE", "..else", "...if (isinstance(parent,ast.Function) And parent.is_constructor)", "....if isinstance(target,ast.Class)", ".....initially_unowned_type = ast.Type(,target_giname='GObject.InitiallyUnowned')", ".....try", "......initially_unowned = self._transformer.lookup_typenode(initially_unowned_type)", ".....except KeyError", "......message.error_node(node,'constructor found but GObject is not in includes')", "......return None", ".....if (initially_unowned And self._is_gi_subclass(typeval,initially_unowned_type))", "......return ast.PARAM_TRANSFER_NONE", ".....else", "......return ast.PARAM_TRANSFER_FULL", "....else", ".....if isinstance(target,(ast.Record,ast.Union))", "......return ast.PARAM_TRANSFER_FULL", ".....else", "......raise AssertionError('Invalid constructor')", "...else", "....if isinstance(target,(ast.Class,ast.Record,ast.Union))", ".....return None", "....else", ".....return None"] ∧
     Gen.typeContainerShape =
       ["Annotated.__init__(self)", "self.type = typenode", "self.nullable = nullable", "self.not_nullable = not_nullable", "self.direction = direction", "if transfer IsNot None", ".self.transfer = transfer", "else", ".if (typenode And typenode.is_const)", "..self.transfer = PARAM_TRANSFER_NONE", ".else", "..self.transfer = None"] := by
   decide +kernel
@@ -304,94 +303,48 @@ theorem C02_callable_defaults_keep (p : Param) (t : Transfer) (h : p.transfer = 
 
 /-! ### returned typedef chains (aliases) -/
 
-/-- What `lookup_typenode` shows of a typedef chain: `links` is the `is_const` of each typedef's own target
-    type, outermost typedef first (`typedef const char *FooStr; typedef FooStr FooStr2;` is `[false, true]`),
-    `f` the fundamental at its end.  Only the FIRST link is visible: its target's constness, and the
-    fundamental only when the chain has length one (a longer chain's first target carries a giname). -/
-def chainTarget (links : List Bool) (f : Str) : Option Target :=
-  match links with
-  | [] => none
-  | [c] => some (.alias (some f) c)
-  | c :: _ => some (.alias none c)
-
-/-- the type of a value declared with the outermost typedef name `g` of the chain -/
-def chainTy (g : Str) (links : List Bool) (f : Str) : TyInfo :=
-  { fundamental := none, giname := some g, node := chainTarget links f, callbackName := none, ctype := g,
-    isConst := false, isVarargs := false }
-
-/-- the statement's default for a returned value of such a type: const anywhere along the chain makes it a
-    returned const value (none); otherwise it is what the fundamental at the end of the chain gets (basic
-    types and untyped pointers none, non-const strings full) -/
-def documentedChainDefault (links : List Bool) (f : Str) : Option Transfer :=
-  if links.any id then some .none
-  else transferDefaultReturnBasic
-    { fundamental := some f, giname := none, node := none, callbackName := none, ctype := [], isConst := false,
-      isVarargs := false }
-
-/-- The statement at full strength for returned typedef'd types: every chain gets the documented default. -/
-def C02_transfer_alias_full : Prop :=
-  ∀ (g : Str) (links : List Bool) (f : Str) (ctor : Bool) (d : Option Direction) (ca : Bool), links ≠ [] →
-    transferDefault .return_ ctor d ca (chainTy g links f) = .ok (documentedChainDefault links f)
-
-theorem chainTy_basic (g : Str) (links : List Bool) (f : Str) :
-    isEquivNone (chainTy g links f) = false ∧ transferDefaultReturnBasic (chainTy g links f) = none := by
-  have hn : isEquivNone (chainTy g links f) = false := by simp [isEquivNone, isEquivFund, chainTy]
-  have hb : isEquivBasicGir (chainTy g links f) = false := by simp [isEquivBasicGir, isEquivFund, chainTy]
-  have ha : isEquivAny (chainTy g links f) = false := by simp [isEquivAny, isEquivFund, chainTy]
-  have hs : isEquivFund (chainTy g links f) stringName = false := by simp [isEquivFund, chainTy]
-  have hc : (chainTy g links f).isConst = false := rfl
-  refine ⟨hn, ?_⟩
-  unfold transferDefaultReturnBasic
-  simp [hn, hb, ha, hs, hc]
-
-/-- Proved for the chains the code handles: a typedef of the fundamental itself (length one: const ⇒ none,
-    basic type / untyped pointer ⇒ none, non-const string ⇒ full), and any chain whose FIRST typedef is a
-    pointer to a const pointee.  Extra hypothesis: `links.length = 1 ∨ links.head? = some true`. -/
-theorem C02_transfer_alias_partial (g : Str) (links : List Bool) (f : Str) (ctor : Bool) (d : Option Direction)
-    (ca : Bool) (h : links.length = 1 ∨ links.head? = some true) :
-    transferDefault .return_ ctor d ca (chainTy g links f) = .ok (documentedChainDefault links f) := by
-  obtain ⟨hn, hb⟩ := chainTy_basic g links f
-  rw [transferDefault_return ctor d ca _ hn rfl]
-  unfold transferDefaultReturn
-  rw [hb]
-  match links, h with
-  | [c], _ =>
-    cases c
-    · simp [chainTy, chainTarget, documentedChainDefault]
-    · simp [chainTy, chainTarget, documentedChainDefault, transferDefaultReturnBasic]
-  | true :: _ :: _, _ =>
-    simp [chainTy, chainTarget, documentedChainDefault, transferDefaultReturnBasic]
-  | false :: _ :: _, h => simp at h
-  | [], h => simp at h
-
-/-- The excluded chains are real: when the first typedef's target is another typedef (and not a pointer to
-    const), NO default is computed, whatever the chain ends in — `typedef const char *FooStr; typedef FooStr
-    FooStr2; FooStr2 f(void);` gets no transfer-ownership although it returns a const value (finding reported
-    by harness/c02.py). -/
-theorem C02_transfer_alias_counterexample :
-    (∀ (g : Str) (l : Bool) (rest : List Bool) (f : Str) (ctor : Bool) (d : Option Direction) (ca : Bool),
-      transferDefault .return_ ctor d ca (chainTy g (false :: l :: rest) f) = .ok none) ∧
-    documentedChainDefault [false, true] "utf8".toList = some .none ∧
-    documentedChainDefault [false, false] "gint".toList = some .none ∧
-    documentedChainDefault [false, false] "utf8".toList = some .full ∧
-    ¬ C02_transfer_alias_full := by
-  have hnone : transferDefaultReturnBasic
-      { fundamental := none, giname := none, node := none, callbackName := none, ctype := [], isConst := false,
-        isVarargs := false } = none := by decide +kernel
-  have h1 : ∀ (g : Str) (l : Bool) (rest : List Bool) (f : Str) (ctor : Bool) (d : Option Direction) (ca : Bool),
-      transferDefault .return_ ctor d ca (chainTy g (false :: l :: rest) f) = .ok none := by
-    intro g l rest f ctor d ca
-    obtain ⟨hn, hb⟩ := chainTy_basic g (false :: l :: rest) f
+/-- The statement for returned typedef'd types, for typedef chains of ANY length: a value declared with a
+    typedef name whose chain of typedefs `mid ++ [last]` (each entry the typedef's own target type, outermost
+    first; the last one targets the fundamental `f`) gets the documented default — const anywhere along the
+    chain makes it a returned const value: none; otherwise basic types and untyped pointers none, non-const
+    strings full, other fundamentals no default (`documentedChainDefault`). -/
+theorem C02_transfer_alias (g : Str) (mid : List AliasLink) (last : AliasLink) (f : Str) (ctor : Bool)
+    (d : Option Direction) (ca : Bool)
+    (hmid : ∀ l ∈ mid, l.fundamental = none ∧ l.giname.isSome = true) (hlast : last.fundamental = some f) :
+    transferDefault .return_ ctor d ca (chainTy g (mid ++ [last])) =
+      .ok (documentedChainDefault ((mid ++ [last]).map (·.isConst)) f) ∧
+    -- the rows of `documentedChainDefault`, spelled out
+    (∀ consts, consts.any id = true → documentedChainDefault consts f = some .none) ∧
+    (∀ consts, consts.any id = false → (strs Gen.basicGirTypes).contains f = true →
+      documentedChainDefault consts f = some .none) ∧
+    (∀ consts, consts.any id = false → documentedChainDefault consts "gpointer".toList = some .none) ∧
+    (∀ consts, consts.any id = false → documentedChainDefault consts "utf8".toList = some .full) := by
+  refine ⟨?_, ?_, ?_, ?_, ?_⟩
+  · obtain ⟨hn, hb⟩ := chainTy_basic g (mid ++ [last])
     rw [transferDefault_return ctor d ca _ hn rfl]
     unfold transferDefaultReturn
     rw [hb]
-    simp [chainTy, chainTarget, hnone]
-  have h2 : documentedChainDefault [false, true] "utf8".toList = some .none := by decide +kernel
-  refine ⟨h1, h2, by decide +kernel, by decide +kernel, ?_⟩
-  intro hfull
-  have := hfull "Foo.Str2".toList [false, true] "utf8".toList false none false (by simp)
-  rw [h1, h2] at this
-  cases this
+    simp only [chainTy, Option.isNone_some, Bool.false_eq_true, if_false]
+    rw [aliasChainDefault_chain mid last f hmid hlast]
+  · intro consts h; simp [documentedChainDefault, h]
+  · intro consts h hf
+    have : isEquivBasicGir
+        { fundamental := some f, giname := none, node := none, callbackName := none, ctype := [], isConst := false,
+          isVarargs := false } = true := by
+      simp only [isEquivBasicGir, isEquivFund, List.any_eq_true]
+      simp only [List.contains_iff_mem] at hf
+      exact ⟨f, hf, by simp⟩
+    simp [documentedChainDefault, h, fundDefault, transferDefaultReturnBasic, this]
+  · intro consts h
+    have : fundDefault "gpointer".toList = some .none := by decide +kernel
+    unfold documentedChainDefault
+    rw [h, this]
+    rfl
+  · intro consts h
+    have : fundDefault "utf8".toList = some .full := by decide +kernel
+    unfold documentedChainDefault
+    rw [h, this]
+    rfl
 
 /-! ### untyped pointers are nullable -/
 
@@ -545,14 +498,21 @@ example : (createTypeFromBase (.array Qual.plain (.ptr Qual.plain (.typedef ⟨t
 example : canonicalize "char**".toList = "utf8*".toList ∧ canonicalize "FooBar**".toList = "FooBar**".toList ∧
     canonicalize "unsigned long*".toList = "gulong*".toList := by decide +kernel
 example : lookup ("char".toList ++ ['*']) = some "utf8".toList ∧ lookup "FooBar".toList = none := by decide +kernel
-example : (transferDefault .return_ false none false (chainTy "Foo.Str".toList [true] "utf8".toList)).toOption
-    = some (some .none) ∧
-    (transferDefault .return_ false none false (chainTy "Foo.Buf".toList [false] "utf8".toList)).toOption
-    = some (some .full) ∧
-    (transferDefault .return_ false none false (chainTy "Foo.Alias".toList [false] "gint".toList)).toOption
-    = some (some .none) ∧
-    (transferDefault .return_ false none false (chainTy "Foo.X".toList [true, false] "utf8".toList)).toOption
+def lnkF (f : String) (c : Bool) : AliasLink := ⟨some f.toList, none, f.toList, c⟩
+def lnkG (g : String) (c : Bool) : AliasLink := ⟨none, some g.toList, g.toList, c⟩
+-- typedef const char *FooStr; typedef FooStr FooStr2; typedef FooStr2 FooStr3;  FooStr3 f(void)  -> none
+example : (transferDefault .return_ false none false
+    (chainTy "Foo.Str3".toList [lnkG "Foo.Str2" false, lnkG "Foo.Str" false, lnkF "utf8" true])).toOption
     = some (some .none) := by decide +kernel
+-- typedef char *FooBuf; typedef FooBuf FooBuf2;  FooBuf2 f(void) -> full;  typedef int chains -> none
+example : (transferDefault .return_ false none false
+    (chainTy "Foo.Buf2".toList [lnkG "Foo.Buf" false, lnkF "utf8" false])).toOption = some (some .full) ∧
+    (transferDefault .return_ false none false
+    (chainTy "Foo.Alias2".toList [lnkG "Foo.Alias" false, lnkF "gint" false])).toOption = some (some .none) ∧
+    (transferDefault .return_ false none false (chainTy "Foo.Str".toList [lnkF "utf8" true])).toOption
+    = some (some .none) := by decide +kernel
+example : ∀ l ∈ [lnkG "Foo.Str2" false, lnkG "Foo.Str" false], l.fundamental = none ∧ l.giname.isSome = true := by
+  decide
 example : (markUserData (mkP "user_data" gp)).closure = some "user_data".toList := by decide +kernel
 example : commonNullable gp none false = true := by decide +kernel
 
